@@ -405,10 +405,13 @@ H("C14", "debugger::command::parse::verif_h::c14_arguments_tokens", PARSEF, cove
   functions=["Arguments::next_token_str", "Arguments::next_argument_str", "Arguments::arg_count"], what="tokenisation of every line <= 5 ASCII bytes", bounds="<= 5 bytes")
 H("C14", "debugger::command::parse::verif_h::c10_count_clamp", PARSEF, covers=2, stubs=[FMT], functions=["Arguments::next_positive_integer_or_default"],
   what="step into count: default 1, 0 -> 1", bounds="one decimal digit")
-H("C14", "debugger::command::reader::stdin::verif_h::c14_transport_equivalence", STDINF, covers=2, timeout=3000, mem_gb=24,
-  stubs=["Stdin::read_byte -> next byte of the harness's byte queue (the OS read is the only thing replaced)"],
-  functions=["Argument::read", "Stdin::read", "Stdin::read_char", "read_char_from_bytes", "Utf8Position::from"],
-  what="same <= 4-byte script via --command and via stdin: same command strings, same end", bounds="<= 4 bytes, valid UTF-8 (ASCII + one 2-byte char)")
+for nm, q in [("len1", True), ("len2", True), ("len3", False), ("multibyte", True)]:
+    H("C14", f"debugger::command::reader::stdin::verif_h::c14_transport_{nm}", STDINF, tier=("quick" if q else "thorough"), covers=1, timeout=3000, mem_gb=24,
+      allow_unsat=["at least two commands"] if nm == "len1" else [],
+      stubs=["Stdin::read_byte -> next byte of the harness's byte queue (the OS read is the only thing replaced)"],
+      functions=["Argument::read", "Stdin::read", "Stdin::read_char", "read_char_from_bytes", "Utf8Position::from"],
+      what=f"same script ({nm}) via --command and via stdin: same command strings, same end",
+      bounds="scripts of exactly 1/2/3 bytes over {a, space, ';', newline}; e-acute next to one symbolic ASCII byte")
 
 # ------------------------------------------------------------------ C20
 TERMF = "src/debugger/command/reader/terminal.rs"
